@@ -1,0 +1,82 @@
+//! Verification hook H5 (compiled only with `--cfg vbxq_aelys_lang_verif`): raw-access sites
+//! of the dispatch loop.  Everything here is inert until `enable(true)` is called; while
+//! enabled, every raw-pointer access of `run_fast` is logged through `crate::verif::site`
+//! and an access whose index is outside its buffer is reported and *not performed* (the
+//! dispatch loop returns `InvalidBytecode("verif site oob ...")` instead).
+use std::sync::atomic::{AtomicBool, Ordering};
+
+static ENABLED: AtomicBool = AtomicBool::new(false);
+
+// access records: (id, index, true buffer length)
+pub const FETCH: u32 = 1;
+pub const CACHE_RD: u32 = 2;
+pub const PATCH_WR: u32 = 3;
+pub const PATCH_RD: u32 = 4;
+pub const CONST: u32 = 5;
+pub const UPVAL: u32 = 6;
+pub const REG_RD: u32 = 7;
+pub const REG_WR: u32 = 8;
+pub const CALLSITE: u32 = 9;
+/// the cached `regs_ptr` no longer points at `self.registers` (idx = 1, len = 0: never in bounds)
+pub const STALE_REGS: u32 = 10;
+// per-instruction snapshot records (not accesses)
+/// (instruction word, base)
+pub const SNAP_INSTR: u32 = 100;
+/// (local constants_len, true constants length of the running function or u64::MAX)
+pub const SNAP_CONST: u32 = 101;
+/// (local upvalues_len, registers.len())
+pub const SNAP_UPREG: u32 = 102;
+/// (local bytecode_len, call_site_cache.len())
+pub const SNAP_BC: u32 = 103;
+
+pub fn enable(on: bool) {
+    ENABLED.store(on, Ordering::Relaxed);
+}
+#[inline(always)]
+pub fn on() -> bool {
+    ENABLED.load(Ordering::Relaxed)
+}
+/// Log the access; true when it is inside the buffer.
+#[inline(always)]
+pub fn ok(id: u32, idx: usize, len: usize) -> bool {
+    crate::verif::site(id, idx as u64, len as u64);
+    idx < len
+}
+
+impl crate::vm::VM {
+    /// True lengths (bytecode words, constants) of the function the running frame claims to
+    /// execute, resolved through the heap and confirmed by pointer identity with the cached
+    /// raw pointers; `usize::MAX` when the frame's function reference does not own them.
+    pub fn verif_true_lens(
+        &self,
+        func_ref: crate::vm::GcRef,
+        bytecode_ptr: *const u32,
+        constants_ptr: *const crate::vm::Value,
+    ) -> (usize, usize) {
+        use crate::vm::ObjectKind;
+        let f = match self.heap.get(func_ref).map(|o| &o.kind) {
+            Some(ObjectKind::Function(f)) => Some(f),
+            Some(ObjectKind::Closure(c)) => match self.heap.get(c.function).map(|o| &o.kind) {
+                Some(ObjectKind::Function(f)) => Some(f),
+                _ => None,
+            },
+            _ => None,
+        };
+        match f {
+            Some(f) => {
+                let bl = if f.function.bytecode.as_ptr() == bytecode_ptr {
+                    f.function.bytecode.len()
+                } else {
+                    usize::MAX
+                };
+                let cl = if f.function.constants.as_ptr() == constants_ptr {
+                    f.function.constants.len()
+                } else {
+                    usize::MAX
+                };
+                (bl, cl)
+            }
+            None => (usize::MAX, usize::MAX),
+        }
+    }
+}
